@@ -175,6 +175,9 @@ func c06Plan(d c06Desc) (gen1, sess, cont []refcar.Block, large bool) {
 	gen1, sess, cont = all[:n1], all[n1:len(all)-2], all[len(all)-2:]
 	if r.Intn(5) == 0 {
 		sess = append(append([]refcar.Block{}, sess...), gen.BoundaryBlock(r, 700+r.Intn(2000)))
+	} else if d.Seed%4 == 1 && d.Puts == 0 {
+		// one section of several KiB (a writer may treat large sections differently from small ones)
+		sess = append(append([]refcar.Block{}, sess...), gen.BoundaryBlock(r, 4200+r.Intn(3000)))
 	}
 	if d.Cfg.WholeCID && d.Puts == 0 {
 		// whole-CID stores keep blocks that share a multihash apart: the same bytes under another codec
@@ -190,6 +193,63 @@ func c06Plan(d c06Desc) (gen1, sess, cont []refcar.Block, large bool) {
 		sess = append(append([]refcar.Block{}, sess...), twin(sess[0]), twin(gen1[0]))
 	}
 	return gen1, sess, cont, n1+ns >= 25
+}
+
+// c06SecondCrash: the image was cut inside a write of the session's OPEN (resuming a finalized file
+// rewrites its header); the next session resumes that image, puts two more blocks, and is cut in turn
+// inside the header writes of its Finalize. Whatever the first crash left in the header must not make
+// the third session believe the second one's torn header: blocks acknowledged in either session stay.
+func c06SecondCrash(t *mon.T, d c06Desc, viol func(string, string, ...any), img []byte, path string, roots []cid.Cid, cfg lab.Cfg, acked, cont []refcar.Block) {
+	s2, err := c06Open(d.API, path, img, false, roots, cfg, true)
+	if err != nil {
+		return // the image is refused: judged by the caller
+	}
+	for _, b := range cont {
+		if err := s2.put(b); err != nil {
+			s2.close()
+			return
+		}
+	}
+	s2.mark("call:finalize")
+	_ = s2.finalize()
+	evs := s2.events()
+	s2.close()
+	at := -1
+	for i, e := range evs {
+		if e.Kind == iofault.KMark && e.Mark == "call:finalize" {
+			at = i
+		}
+	}
+	if at < 0 {
+		return
+	}
+	must := append(append([]refcar.Block{}, acked...), cont...)
+	n := 0
+	for i := at + 1; i < len(evs) && n < 2; i++ { // the two header writes of Finalize (characteristics, then the three fields)
+		if evs[i].Kind != iofault.KWriteAt && evs[i].Kind != iofault.KWrite {
+			continue
+		}
+		n++
+		for tear2 := 1; tear2 < len(evs[i].Data); tear2++ {
+			img2 := iofault.Image(img, evs, i, tear2)
+			s3, err := c06Open(d.API, path, img2, false, roots, cfg, false)
+			t.Events(1)
+			t.Cover("second-level-crash-images")
+			if err != nil {
+				continue // a refusal destroys nothing it has not read (the first-level judgement covers refusals)
+			}
+			for _, b := range must {
+				has, herr := s3.has(b)
+				got, gerr := s3.get(b)
+				if herr != nil || !has || gerr != nil || !bytes.Equal(got, b.Data) {
+					viol("second-crash/acked-block-lost", "after a crash inside the reopening of a finalized file, and a second crash %d bytes into a header write of the next Finalize, the resumed store misses a block acknowledged before (Has=%v,%v Get err=%v)", tear2, has, herr, gerr)
+					s3.close()
+					return
+				}
+			}
+			s3.close()
+		}
+	}
 }
 
 func runC06(t *mon.T, raw json.RawMessage) {
@@ -475,6 +535,9 @@ func c06Judge(t *mon.T, d c06Desc, key func(string) string, phase string, ei, te
 	detail := map[string]any{"event": ei, "tear": tear, "phase": phase, "cfg": cfg.String(), "firstgen": d.FirstGen, "image_len": len(img), "acked": len(acked), "invoked": len(invoked)}
 	viol := func(sym, format string, a ...any) {
 		t.ViolateD(key("cut="+phase+"/"+sym), detail, "[crash in %s, event %d, tear %d] "+format, append([]any{phase, ei, tear}, a...)...)
+	}
+	if d.API == "storage" && !cfg.V1 && !cfg.NoIdx && strings.HasPrefix(phase, "resume.unfinalize-header") && tear > 0 {
+		c06SecondCrash(t, d, viol, img, path, roots, cfg, acked, cont)
 	}
 	s, err := c06Open(d.API, path, img, false, roots, cfg, false)
 	t.Events(1)
